@@ -20,6 +20,12 @@ def EntryPoint.mode : EntryPoint → Mode
   | .proxy => .proxy
   | _ => .decision
 
+/-- `log.level`: the level of the request-scoped logger which the logger middleware / interceptor of every entry
+point puts into the request context (`zerolog.Ctx(ctx.AppContext())`) -/
+inductive LogLevel where
+  | trace | debug | info | warn | disabled
+deriving DecidableEq, Repr, Inhabited
+
 /-- `serve.<service>.respond.with.*.code`; 0 = not configured -/
 structure Cfg where
   accepted : Nat := 0
@@ -31,6 +37,10 @@ structure Cfg where
   noRule : Nat := 0
   /-- `serve.<service>.respond.verbose`: error responses carry a body describing the error -/
   verbose : Bool := false
+  /-- `log.level`. The pipeline code consults the logger (`conditionalSubjectHandler.Execute` dumps the subject when
+  the level is trace, the middlewares dump requests), but only to write log lines: no function of the model reads this
+  field — that *is* the model of the code's behaviour, and the correspondence check varies the level to validate it -/
+  logLevel : LogLevel := .disabled
 deriving DecidableEq, Repr, Inhabited
 
 /-- what the error translators look at in the request besides the error: `negotiable` = the `Accept` header is
